@@ -105,3 +105,62 @@ def check_const_width(W, prop, tys=("Histogram",)):
                      "the few-ulp floating-point accuracy is outside this claim")
     if not found:
         raise Unsupported("with_const_width not found in MIR")
+
+
+def check_const_width_accuracy(W, prop, max_len=10):
+    """Rounding analysis of with_const_width: every float operation carries a rigorous first-order-plus-remainder error bound
+    (standard model, u = 2^-53); z3 shows that the bound of every edge is at most 8 * u * max(|start|, |end|) (<= 8 ulps of the larger
+    bound). If the bound cannot be established the kernel is run natively on probe inputs (all LEN incl. 20 and 100) to look for a
+    concrete edge more than 8 ulps off; without such a witness the obligation is inconclusive, never a violation."""
+    from . import interp as I
+    start, end, M = z3.Reals("start end M")
+    pre = [start < end, M > 0, start <= M, -start <= M, end <= M, -end <= M]
+    found = 0
+    for name, f in list(W.m.funcs.items()):
+        if not f.name.endswith("::with_const_width"):
+            continue
+        found += 1
+        I.ROUND["on"] = True
+        try:
+            outs = W.m.run(W.m.start(f, [F(start), F(end)], list(pre)))
+        finally:
+            I.ROUND["on"] = False
+        goals = []
+        L = None
+        for o in outs:
+            pcs = z3.And(*[to_bool(x) for x in o.pc[len(pre):]]) if o.pc[len(pre):] else z3.BoolVal(True)
+            if o.kind != "return":
+                goals.append(z3.Implies(pcs, z3.BoolVal(False)))
+                continue
+            rng = o.value.fields[0]
+            L = len(rng.fields) - 1
+            g = []
+            for i, e in enumerate(rng.fields):
+                err = e.err if e.err is not None else z3.RealVal(0)
+                g.append(to_real(err) <= 8 * to_real(I.U53) * M)
+            goals.append(z3.Implies(pcs, z3.And(*g)))
+        if L is None or L > max_len:
+            continue
+        r = W.prove("with_const_width accuracy [%s, LEN %s]" % (f.name.split("<impl")[0].rstrip(":") or "crate", L), pre, z3.And(*goals),
+                    role="%s:const-width-edge-near-exact" % prop, replay=const_width_probe_replay(),
+                    note="rigorous rounding-error bound of every edge <= 8 * 2^-53 * max(|start|,|end|), i.e. within 8 ulps of the larger bound, "
+                         "for all finite start < end (standard model of floating-point arithmetic, no underflow)")
+    if not found:
+        raise Unsupported("with_const_width not found in MIR")
+
+
+PROBES = [(1.0, 1.1), (1.5, 1.6), (-20.0, -18.3), (2.0, 2.2), (-1.98, -1.07), (0.0, 1e-3), (-1e30, 1e30), (1e-30, 3e-30), (3.0, 1e9 + 7.0)]
+
+
+def const_width_probe_replay():
+    """native witness search when the bound is not established: run with_const_width for LEN in {1,2,3,4,5,10,20,100} on probe inputs and
+    compare every edge with the exact rational value; a miss of more than 8 ulps of max(|start|,|end|) confirms a violation"""
+    from .replay import f2w
+
+    def build(vals):
+        program = []
+        for (a, b) in PROBES:
+            for L in (1, 2, 3, 4, 5, 10, 20, 100):
+                program.append("const_width %d %s %s" % (L, f2w(a), f2w(b)))
+        return program, None, {"mode": "const-width-probes", "probes": PROBES}
+    return {"vars": [], "build": build}
